@@ -55,14 +55,12 @@ func (t *MemTable) Delete(key []byte, seqNum uint64) (full bool) {
 	return t.size > uint64(t.memSize)
 }
 
-// ScanPrefix returns all entries matching the prefix in ascending order. This
-// method transparently omits deleted entries.
+// ScanPrefix returns all entries matching the prefix in ascending order. Deleted
+// entries are included as tombstones so that, when merged with older tables,
+// they mask the older values of their keys. Callers drop them after merging.
 func (t *MemTable) ScanPrefix(prefix []byte) iter.Seq[kv.Entry] {
 	return func(yield func(kv.Entry) bool) {
 		for node := range t.zt.AscendPrefix(prefix) {
-			if isDeleteOp(node) {
-				continue
-			}
 			if !yield(newEntryFromNode(node)) {
 				return
 			}
